@@ -11,6 +11,7 @@ CONSTANTS
   EnvAtQuiet = FALSE
   GenNoFaults = FALSE
   GenHold = 0
+  MaxPhantom = 0
 SPECIFICATION FairSpec
 INVARIANTS TypeOK SlotRange CapacityHonoured ReleasedAtMostOnce ReleasedAtEnd NoEarlyRelease RetNeverBlocks CounterMatches ReportedOK RelayPolicy FullCapacityAgain
 PROPERTY PollsAgain
